@@ -107,6 +107,15 @@ func checkErrChecked(r *Reporter, p *Prog, rule string, sc errScope) {
 						if v == nil {
 							continue
 						}
+						if isErrorConstructor(callee) {
+							continue // constructs an error value, nothing to check
+						}
+						if v.Pos() < u.body.Pos() || v.Pos() > u.body.End() {
+							if !named[v] {
+								r.Pass(rule, key, p.posStr(call.Pos()), "stored into a variable of the enclosing function (handed off)")
+								continue
+							}
+						}
 						w, bad := f.reach(Point{b, i + 1}, &searchOpts{AvoidNode: func(c ast.Node) bool { return isErrCheck(info, c, v, named) }},
 							func(pt Point, atExit bool) bool {
 								if atExit {
@@ -146,6 +155,15 @@ func checkErrChecked(r *Reporter, p *Prog, rule string, sc errScope) {
 			}
 		}
 	}
+}
+
+func isErrorConstructor(callee string) bool {
+	for _, s := range []string{"Wrap", "Wrapf", "Errorf", "New", "WithStack", "WithMessage", "WithMessagef", "Join", "Chain"} {
+		if callee == "ierrors."+s || callee == "errors."+s || callee == "fmt."+s {
+			return true
+		}
+	}
+	return false
 }
 
 func mentionsObj(info *types.Info, es []ast.Expr, v types.Object) bool {
